@@ -11,7 +11,12 @@ import Mathlib.Tactic.Linarith
 
 * `go_spec`, `argminFirst_some`, `argminFirst_none`: `np.argmin` = first index of the minimum.
 * `argsortStable_perm`, `argsortStable_pairwise`, `argsortStable_sortsWeakly`.
-* `big`, `cell`, `D`: the pieces of `unitReduce`; `column_unitReduce_fst/snd`, `cell_nil`, `cell_cons`, `D_lt_big`.
+* `big`, `cell`, `D`: the pieces of `unitReduce`; `column_unitReduce_fst/snd`, `cell_nil`, `cell_spec`, `D_lt_big`.
+* `rows_game_none/some/null_player`: the unit-level game on the reduced data is a nearest-present-row game.
+* `ordersUsed`, `ordersOK`, `mapfork_nonsimple`, `mapfork_simple`, `importances_mapfork_phi`: `mapfork` unfolded.
+* `score_k1`: `score` for `K = 1`, one conjunct: a single `mapfork` call; `encode_train/test`, `acc_entry`.
+* `unitVec`, `indVec`, `ownRows`, `rowsOf_wellPadded`, `rows_present`: for a one-literal-per-row (map/fork)
+  provenance a row is present under a coalition iff one of the coalition's units owns it.
 -/
 
 open Finset
@@ -317,6 +322,62 @@ theorem rows_game_some (own : List (List ℕ)) (labels : List ℕ) (dist : List 
     exact le_trans h1 (hrow v r' hr')
   · rw [hval, getD_map_lt' _ _ _ [] 0 u.isLt, hc]
 
+theorem idxOf_lt_of_dist_lt {d : List ℚ} {order : List ℕ} (hs : sortsWeakly d order = true) {a b : ℕ}
+    (ha : a < d.length) (hb : b < d.length) (h : d.getD a 0 < d.getD b 0) : order.idxOf a < order.idxOf b := by
+  by_contra hle
+  have hp := sortsWeakly_isPerm hs
+  have hma : a ∈ order := (isPerm_mem hp).mpr ha
+  have hmb : b ∈ order := (isPerm_mem hp).mpr hb
+  have := sortsWeakly_le hs _ _ (not_lt.mp hle) (List.idxOf_lt_length_iff.mpr hma)
+  rw [getD_idxOf hmb, getD_idxOf hma] at this
+  linarith
+
+/-- a unit that owns no row is a null player of the game the kernel computes -/
+theorem rows_game_null_player (own : List (List ℕ)) (labels : List ℕ) (dist : List (List ℚ)) (nullLabel j : ℕ)
+    (util : List ℚ) (null : ℚ) (hnl : util.length ≤ nullLabel) (order : List ℕ)
+    (hs : sortsWeakly (udCol own labels dist nullLabel j) order = true)
+    (u : Fin own.length) (hu : own.getD u.val [] = []) (S : Finset (Fin own.length)) :
+    nnGameU own.length order (ulCol own labels dist nullLabel j) util null (insert u S)
+      = nnGameU own.length order (ulCol own labels dist nullLabel j) util null S := by
+  by_cases hS : ∃ w ∈ S, own.getD w.val [] ≠ []
+  · obtain ⟨w, hw, hwne⟩ := hS
+    have hlen : (udCol own labels dist nullLabel j).length = own.length := by simp
+    have hp : isPerm own.length order = true := by
+      have := sortsWeakly_isPerm hs
+      rwa [hlen] at this
+    have hud : ∀ v : Fin own.length, (udCol own labels dist nullLabel j).getD v.val 0
+        = (cell labels dist nullLabel (own.getD v.val []) j).2 := fun v => getD_map_lt' _ _ _ [] 0 v.isLt
+    obtain ⟨u0, hu0, hv0, hm0⟩ := DsProofs.C01.C01_game_nearest own.length order
+      (ulCol own labels dist nullLabel j) util null hp S ⟨w, hw⟩
+    obtain ⟨u1, hu1, hv1, hm1⟩ := DsProofs.C01.C01_game_nearest own.length order
+      (ulCol own labels dist nullLabel j) util null hp (insert u S) ⟨u, Finset.mem_insert_self _ _⟩
+    rw [hv0, hv1]
+    have hne : u1 ≠ u := by
+      rintro rfl
+      have h1 := hm1 w (Finset.mem_insert_of_mem hw)
+      have hdu : (udCol own labels dist nullLabel j).getD u1.val 0 = big dist := by
+        rw [hud u1, hu, cell_nil]
+      have hdw : (udCol own labels dist nullLabel j).getD w.val 0 < big dist := by
+        obtain ⟨r, _, hc, _⟩ := cell_spec_mem labels dist nullLabel (own.getD w.val []) j hwne
+        rw [hud w, hc]; exact D_lt_big dist r j
+      have := idxOf_lt_of_dist_lt hs (by rw [hlen]; exact w.isLt) (by rw [hlen]; exact u1.isLt)
+        (by rw [hdu]; exact hdw)
+      omega
+    have hu1S : u1 ∈ S := (Finset.mem_insert.mp hu1).resolve_left hne
+    have e : order.idxOf u1.val = order.idxOf u0.val :=
+      le_antisymm (hm1 u0 (Finset.mem_insert_of_mem hu0)) (hm0 u1 hu1S)
+    have h1 := getD_idxOf ((isPerm_mem hp).mpr u1.isLt)
+    have h0 := getD_idxOf ((isPerm_mem hp).mpr u0.isLt)
+    have : u1.val = u0.val := by rw [← h1, e, h0]
+    rw [this]
+  · push Not at hS
+    rw [rows_game_none own labels dist nullLabel j util null hnl order hs S hS,
+      rows_game_none own labels dist nullLabel j util null hnl order hs (insert u S) (by
+        intro v hv
+        rcases Finset.mem_insert.mp hv with rfl | h
+        · exact hu
+        · exact hS v h)]
+
 end Ds.Kernel
 
 namespace Ds.Neighbor
@@ -439,7 +500,8 @@ theorem D_take (dist : List (List ℚ)) (nb r j : ℕ) (hj : j < nb) :
   by_cases hr : r < dist.length
   · rw [getD_map_lt' _ _ _ [] [] hr]
     simp [List.getD_eq_getElem?_getD, hj]
-  · rw [getD_default_of_le _ _ (by simpa using not_lt.mp hr), getD_default_of_le _ _ (not_lt.mp hr)]
+  · rw [getD_default_of_le (dist.map (fun row => row.take nb)) [] (by simpa using not_lt.mp hr),
+      getD_default_of_le dist [] (not_lt.mp hr)]
 
 /-! ### `rowsOf` -/
 
@@ -540,5 +602,155 @@ theorem acc_entry (yTrain yTest : List Int) (r j : ℕ) (hr : r < yTrain.length)
     have h'' : ¬ (Int.ofNat ((Util.unique yTrain).idxOf (yTrain.getD r 0))
         = Int.ofNat ((Util.unique yTrain).idxOf (yTest.getD j 0))) := fun e => h' (Int.ofNat.inj e)
     rw [Util.ind_eq_ite, Util.ind_eq_ite, if_neg h'', if_neg h]
+
+end Ds.Neighbor
+
+/-! ### map/fork provenances: which rows are present under a coalition of units -/
+
+namespace Ds.Neighbor
+open Ds.Kernel Ds.Prov
+
+/-- the assignment in which exactly unit `u` is switched on -/
+def unitVec (n u : ℕ) : List Int := (List.replicate n (0 : Int)).set u 1
+
+/-- the assignment in which exactly the units of `S` are switched on -/
+def indVec (n : ℕ) (S : Finset (Fin n)) : List Int :=
+  (List.range n).map (fun w => if w ∈ S.image Fin.val then (1 : Int) else 0)
+
+/-- rows present when only unit `u` is switched on -/
+def ownRows (p : Prov.P) (u : ℕ) : List ℕ :=
+  (List.range p.data.length).filter (fun i => rowSem ((unitVec p.nUnits u).map Int.toNat) (p.data.getD i []))
+
+theorem unitVec_length (n u : ℕ) : (unitVec n u).length = n := by simp [unitVec]
+theorem unitVec_nonneg (n u : ℕ) : ∀ v ∈ unitVec n u, 0 ≤ v := by
+  intro v hv
+  rcases List.mem_or_eq_of_mem_set hv with h | h
+  · rw [List.eq_of_mem_replicate h]
+  · rw [h]; decide
+theorem indVec_length (n : ℕ) (S : Finset (Fin n)) : (indVec n S).length = n := by simp [indVec]
+theorem indVec_nonneg (n : ℕ) (S : Finset (Fin n)) : ∀ v ∈ indVec n S, 0 ≤ v := by
+  intro v hv
+  simp only [indVec, List.mem_map] at hv
+  obtain ⟨w, _, rfl⟩ := hv
+  split_ifs <;> decide
+
+theorem unitVec_getD (n u w : ℕ) (hw : w < n) :
+    ((unitVec n u).map Int.toNat).getD w 0 = if w = u then 1 else 0 := by
+  simp only [unitVec, List.getD_eq_getElem?_getD, List.getElem?_map, List.getElem?_set, List.length_replicate]
+  by_cases h : u = w
+  · subst h; simp [hw]
+  · have h' : ¬ w = u := fun e => h e.symm
+    simp [h, h', hw]
+
+theorem indVec_getD (n : ℕ) (S : Finset (Fin n)) (w : Fin n) :
+    ((indVec n S).map Int.toNat).getD w.val 0 = if w ∈ S then 1 else 0 := by
+  have hmem : w.val ∈ S.image Fin.val ↔ w ∈ S := by
+    simp [Finset.mem_image, Fin.val_inj]
+  simp only [indVec, List.map_map, List.getD_eq_getElem?_getD, List.getElem?_map, List.getElem?_range w.isLt,
+    Option.map_some, Option.getD_some, Function.comp]
+  by_cases h : w ∈ S
+  · simp [hmem.mpr h, h]
+  · simp [mt hmem.mp h, h]
+
+theorem query_mask (p : Prov.P) (vals : List Int) (hp : WellPadded p) (hlen : vals.length = p.nUnits)
+    (hpos : ∀ v ∈ vals, 0 ≤ v) :
+    queryIdx p vals = .ok ((List.range p.data.length).filter
+      (fun i => rowSem (vals.map Int.toNat) (p.data.getD i []))) := by
+  rw [queryIdx_of_query (query_ok p vals hp hlen hpos), List.length_map]
+  congr 1
+  apply List.filter_congr
+  intro i hi
+  exact getD_map_lt' _ _ _ [] false (List.mem_range.mp hi)
+
+theorem rowsOf_wellPadded (p : Prov.P) (hp : WellPadded p) :
+    rowsOf p = .ok ((List.range p.nUnits).map (ownRows p)) := by
+  unfold rowsOf
+  apply mapM_ok_of
+  intro u _
+  exact query_mask p _ hp (unitVec_length _ _) (unitVec_nonneg _ _)
+
+/-- a row of a container with one disjunct and one conjunct is a single literal -/
+theorem row_single {n : ℕ} {R : Row} (h : RowOK 1 1 n R) : ∃ l, R = [[l]] ∧ LitOK n l := by
+  obtain ⟨hlen, hc⟩ := h
+  match R, hlen with
+  | [c], _ =>
+    obtain ⟨hcl, hl⟩ := hc c (by simp)
+    match c, hcl with
+    | [l], _ => exact ⟨l, rfl, hl l (by simp)⟩
+
+theorem rowSem_single (a : List ℕ) (l : Lit) :
+    rowSem a [[l]] = (l != padLit && a.getD l.1.toNat 0 == l.2.toNat) := by
+  by_cases h : l = padLit
+  · subst h; simp [rowSem, conjSem, litSem]
+  · have h1 : (l == padLit) = false := by simpa using h
+    have h2 : (l != padLit) = true := by simpa using h
+    simp only [rowSem, conjSem, litSem, List.any_cons, List.any_nil, List.all_cons, List.all_nil, h1, h2,
+      Bool.or_false, Bool.and_true, Bool.false_or, Bool.true_and]
+
+/-- map/fork: a row whose literal tests a candidate other than `0` is present under the coalition `S`
+iff it is present when one single unit of `S` is switched on -/
+theorem present_iff {n : ℕ} (l : Lit) (hl : LitOK n l) (hc : l ≠ padLit → l.2 ≠ 0) (S : Finset (Fin n)) :
+    rowSem ((indVec n S).map Int.toNat) [[l]] = true
+      ↔ ∃ u ∈ S, rowSem ((unitVec n u.val).map Int.toNat) [[l]] = true := by
+  simp only [rowSem_single, Bool.and_eq_true, bne_iff_ne, ne_eq, beq_iff_eq]
+  constructor
+  · rintro ⟨hne, hval⟩
+    rcases hl with h | ⟨h0, h1, h2⟩
+    · exact absurd h hne
+    · have hw : l.1.toNat < n := by omega
+      have := indVec_getD n S ⟨l.1.toNat, hw⟩
+      simp only at this
+      rw [this] at hval
+      have h2' : l.2.toNat ≠ 0 := by have := hc hne; omega
+      by_cases hS : (⟨l.1.toNat, hw⟩ : Fin n) ∈ S
+      · refine ⟨⟨l.1.toNat, hw⟩, hS, hne, ?_⟩
+        rw [unitVec_getD n _ _ hw, if_pos rfl]
+        rw [if_pos hS] at hval; exact hval
+      · rw [if_neg hS] at hval; exact absurd hval.symm h2'
+  · rintro ⟨u, hu, hne, hval⟩
+    refine ⟨hne, ?_⟩
+    rcases hl with h | ⟨h0, h1, h2⟩
+    · exact absurd h hne
+    · have hw : l.1.toNat < n := by omega
+      have h2' : l.2.toNat ≠ 0 := by have := hc hne; omega
+      rw [unitVec_getD n _ _ hw] at hval
+      by_cases hwu : l.1.toNat = u.val
+      · rw [if_pos hwu] at hval
+        have := indVec_getD n S ⟨l.1.toNat, hw⟩
+        simp only at this
+        rw [this, if_pos (by rwa [show (⟨l.1.toNat, hw⟩ : Fin n) = u from Fin.ext hwu])]
+        exact hval
+      · rw [if_neg hwu] at hval; exact absurd hval.symm h2'
+
+/-- **map/fork provenance**: which rows are present under a coalition -/
+theorem rows_present (p : Prov.P) (hp : WellPadded p) (hC : p.nConj = 1) (hD : p.nDisj = 1)
+    (hcand : ∀ r ∈ p.data, ∀ c ∈ r, ∀ l ∈ c, l ≠ padLit → l.2 ≠ 0)
+    (own : List (List ℕ)) (hown : rowsOf p = .ok own) (S : Finset (Fin p.nUnits)) :
+    ∃ idx, queryIdx p (indVec p.nUnits S) = .ok idx ∧
+      ∀ i, i ∈ idx ↔ ∃ u ∈ S, i ∈ own.getD u.val [] := by
+  rw [rowsOf_wellPadded p hp] at hown
+  injection hown with hown
+  subst hown
+  refine ⟨_, query_mask p _ hp (indVec_length _ _) (indVec_nonneg _ _), ?_⟩
+  intro i
+  have hget : ∀ u : Fin p.nUnits, ((List.range p.nUnits).map (ownRows p)).getD u.val [] = ownRows p u.val :=
+    fun u => getD_range_map _ _ _ _ u.isLt
+  simp only [hget, ownRows, List.mem_filter, List.mem_range]
+  by_cases hi : i < p.data.length
+  · have hmem : p.data.getD i [] ∈ p.data := getD_mem_of_lt _ _ hi
+    have hrow := hp _ hmem
+    rw [hC, hD] at hrow
+    obtain ⟨l, hR, hl⟩ := row_single hrow
+    have hc : l ≠ padLit → l.2 ≠ 0 := hcand _ hmem [l] (by rw [hR]; simp) l (by simp)
+    rw [hR]
+    constructor
+    · rintro ⟨_, h⟩
+      obtain ⟨u, hu, h'⟩ := (present_iff l hl hc S).mp h
+      exact ⟨u, hu, hi, h'⟩
+    · rintro ⟨u, hu, _, h'⟩
+      exact ⟨hi, (present_iff l hl hc S).mpr ⟨u, hu, h'⟩⟩
+  · constructor
+    · rintro ⟨h, _⟩; exact absurd h hi
+    · rintro ⟨_, _, h, _⟩; exact absurd h hi
 
 end Ds.Neighbor
